@@ -76,11 +76,7 @@ Qed.
 
 (* ================================================================ FieldsOnCorrectType *)
 Definition foct_sub_errors (o : operation) : list verror :=
-  flat_map (fun x => match x with
-                     | SField _ _ n _ _ _ _ =>
-                         if name_eqb n "__typename" then [err R_FieldsOnCorrectType [o_pos o]] else []
-                     | _ => []
-                     end) (o_sels o).
+  repeat (err R_FieldsOnCorrectType [o_pos o]) (count_root_typename_fields (o_sels o)).
 
 Definition foct_g (s : sdocument) (e : event) (a : answers) : list verror :=
   match e with
@@ -143,17 +139,41 @@ Qed.
 
 Definition foct_sub_check (o : operation) : bool :=
   match o_kind o with
-  | OpSubscription =>
-      existsb (fun x => match x with SField _ _ n _ _ _ _ => name_eqb n "__typename" | _ => false end) (o_sels o)
+  | OpSubscription => match root_typename_fields (o_sels o) with [] => false | _ :: _ => true end
   | _ => false
   end.
+
+(* the model counts exactly the fields the specification collects *)
+Lemma length_flat_map_sum {A B} (f : A -> list B) (g : A -> nat) l :
+  Forall (fun x => List.length (f x) = g x) l -> List.length (flat_map f l) = list_sum (map g l).
+Proof.
+  induction 1 as [|x r Hx _ IH]; [reflexivity|].
+  cbn [flat_map map list_sum fold_right]. rewrite app_length, Hx. f_equal. exact IH.
+Qed.
+
+Lemma count_root_typename_length x :
+  List.length (root_typename_fields_of x) = count_root_typename x.
+Proof.
+  induction x as [p al n args dirs sp sels IH|p n dirs|p tc dirs sp sels IH] using selection_ind'.
+  - cbn [root_typename_fields_of count_root_typename]. destruct (name_eqb n "__typename"); reflexivity.
+  - reflexivity.
+  - destruct tc as [tc|]; [reflexivity|].
+    cbn [root_typename_fields_of count_root_typename]. apply length_flat_map_sum, IH.
+Qed.
+
+Lemma count_root_typename_fields_length l :
+  List.length (root_typename_fields l) = count_root_typename_fields l.
+Proof.
+  unfold root_typename_fields, count_root_typename_fields. apply length_flat_map_sum.
+  apply Forall_forall. intros x _. apply count_root_typename_length.
+Qed.
 
 Lemma foct_sub_errors_check o :
   negb (is_nil (match o_kind o with OpSubscription => foct_sub_errors o | _ => [] end)) = foct_sub_check o.
 Proof.
   unfold foct_sub_check, foct_sub_errors. destruct (o_kind o); try reflexivity.
-  rewrite is_nil_flat_map, negb_involutive. apply existsb_ext_fn.
-  intros [? ? n ? ? ? ?|? ? ?|? ? ? ? ?]; try reflexivity. destruct (name_eqb n "__typename"); reflexivity.
+  rewrite <- count_root_typename_fields_length.
+  destruct (root_typename_fields (o_sels o)); reflexivity.
 Qed.
 
 Lemma fields_on_correct_type_iff : forall s d, wf_schema s = true ->
@@ -188,8 +208,7 @@ Proof.
   - apply (stateless_in _ _ s d e (foct_stateless s)) in Hin. destruct Hin as (ev & c & Hin).
     unfold foct_g in Hin. destruct ev as [n|n]; [destruct n|]; try (destruct Hin; fail).
     + destruct (o_kind o); try (destruct Hin; fail).
-      unfold foct_sub_errors in Hin. apply in_flat_map in Hin. destruct Hin as [x [_ Hx]].
-      code_tac Hx.
+      unfold foct_sub_errors in Hin. apply repeat_spec in Hin. rewrite Hin. reflexivity.
     + code_tac Hin.
   - apply (stateless_in _ _ s d e lfs_stateless) in Hin. destruct Hin as (ev & c & Hin).
     unfold lfs_g in Hin. destruct ev as [n|n]; [destruct n|]; try (destruct Hin; fail).
